@@ -95,6 +95,12 @@ claimed = {
   ref="DESIGN.md §3 C02",
   bounds=["chain: 3 (quick) / 4 (thorough) proposals, 4 party patterns each, all canonical amounts with currency < 2^59", "merge: one 3-operation scenario with symbolic amounts"],
   outside=["more nodes / longer interleavings of proposals and gossip (the two-node case is the merge scenario: the second node's vertex arrives by AddLeaf)", "truncation inside the history (C07 checks the checkpoint arithmetic)", "trusted sealing nodes"]),
+ "C08": dict(
+  text="Every consumer of the ancestor walker (CalculateBalance, ReadDAGTransactionsByAddress, validateLeaf, AddLeaf, CreateLeaf, StreamDAG, truncate) runs against the REAL producer goroutine of heimdalr/dag (which holds the graph read lock while blocked on its send) under the engine's scheduler: ALL schedules within 2 (quick) / 3 (thorough) preemptions, ledgers with 1..3 (truncate: 2..4) ancestors, the caller's context cancelled after 0..n+1 polls, signature verification failing at any ancestor (symbolic), every truncation depth. End-state verdicts: no goroutine blocked forever after the operation returned (leak), no deadlock, and a graph write plus the ledger lock complete afterwards. The background truncation loop is driven with an honest, an above-the-mark and a maximal declared weight followed by 55 admissions. A DAG stream consumed while a proposal writes is searched for lock cycles (known finding).",
+  ref="DESIGN.md §3 C08",
+  technique=TECH + "; goroutine schedules enumerated exhaustively up to a preemption bound (scheduling points: channel operations, select, ledger lock, atomics, first dag lock of each dag call, storage calls)",
+  bounds=["1..3 ancestors below the tip (2..4 for truncate), cancellation point 0..n+1, preemption bound 2 (quick) / 3 (thorough)", "truncate depth 1..n via the harness redirect of newHashAtDepth", "stream-vs-writer: bug-hunting search (not exhaustive) because of the known lock cycle"],
+  outside=["schedules needing more preemptions; longer histories; more than one concurrent operation besides the walker goroutines (pairs of operations are C03/C18)", "badger and the logger are models / doubles"]),
 }
 
 NA_DEFAULT = "check not built yet in this session; see DESIGN.md §6 build order"
